@@ -14,6 +14,9 @@ Check(t) ==
     ELSE IF t.exc # "" THEN "operator-failed:" \o t.exc
     ELSE IF Len(t.batch) # Len(Sc(t).rows) THEN "one-result-per-row"
     ELSE IF \E r \in DOMAIN t.batch : t.batch[r] # Exp(t, r) THEN "value"
+    \* the first result was read after a second call (rows reversed) of the same operator: results are independent objects,
+    \* and the order of the rows in the batch does not matter
+    ELSE IF t.batch2 # t.batch THEN "result-depends-on-later-call-or-row-order"
     ELSE IF \E r \in DOMAIN t.single : t.single[r] # t.batch[r] THEN "row-depends-on-batch"
     ELSE "ok"
 Init == tid \in 1..Len(Traces) /\ verdict = Check(Traces[tid]) /\ dev = DevOf(Traces[tid], verdict)
